@@ -34,6 +34,8 @@ type c17Variant struct {
 	Env     []string
 	Print   string // "print" (builtin, stderr) or "fmt"
 	Thorough bool
+	// MayNotRun: the binary targets another architecture; if the kernel cannot execute it the variant is skipped.
+	MayNotRun bool
 }
 
 func c17Variants() []c17Variant {
@@ -46,6 +48,15 @@ func c17Variants() []c17Variant {
 		{Name: "from-init", InInit: true, Print: "print"},
 		{Name: "crypto-registry-only", Imports: []string{"crypto"}, Pre: "var _ = crypto.SHA256", Print: "print"},
 		{Name: "ldflags-s-w", Flags: []string{"-ldflags=-s -w"}, Print: "print"},
+		// a program that wraps the registered SHA-256 (instrumentation, a counting wrapper): still a correct SHA-256,
+		// but not the standard library's concrete type
+		{Name: "registers-wrapped-sha256", Imports: []string{"crypto", "crypto/sha256", "hash"},
+			Pre:   "type wrappedHash struct{ hash.Hash }\n\nfunc init() {\n\tcrypto.RegisterHash(crypto.SHA256, func() hash.Hash { return wrappedHash{sha256.New()} })\n}",
+			Print: "print"},
+		// other build configurations of the same source tree (files can be build-constrained)
+		{Name: "goarch-386", Env: []string{"GOARCH=386"}, Print: "print", MayNotRun: true},
+		{Name: "tags-purego", Flags: []string{"-tags=purego"}, Print: "print"},
+		{Name: "cgo-disabled-netgo", Flags: []string{"-tags=netgo,osusergo"}, Env: []string{"CGO_ENABLED=0"}, Print: "print"},
 		{Name: "math-big-only", Imports: []string{"math/big"}, Pre: "var _ = big.NewInt", Print: "print", Thorough: true},
 		{Name: "encoding-json", Imports: []string{"encoding/json"}, Pre: "var _ = json.Marshal", Print: "print", Thorough: true},
 		{Name: "crypto-tls", Imports: []string{"crypto/tls"}, Pre: "var _ = tls.VersionTLS13", Print: "print", Thorough: true},
@@ -136,7 +147,7 @@ func init() {
 		Flavour: "plain",
 		Rule: "executions = plain main programs (not test binaries) generated into a scratch module with `replace github.com/bytemare/secp256k1 => /repo`, differing in the set of other imports " +
 			"(nothing else at all, fmt+os, crypto/sha512, crypto/md5+hash/crc32, crypto/sha256 itself, the crypto registry package only; thorough: math/big, encoding/json, crypto/tls), in calling the library from init(), " +
-			"and in build mode (-ldflags='-s -w'; thorough: -trimpath, -gcflags=all=-l, the alternate toolchain go1.26.8). Each calls HashToGroup, EncodeToGroup and HashToScalar on 4 (msg, DST) pairs including an oversize DST. " +
+			"in what they do to the crypto hash registry (a program that re-registers SHA-256 as a wrapper around the standard one), and in build configuration (-ldflags='-s -w', GOARCH=386 executed natively, -tags=purego, CGO_ENABLED=0 with netgo/osusergo; thorough: -trimpath, -gcflags=all=-l, the alternate toolchain go1.26.8). Each calls HashToGroup, EncodeToGroup and HashToScalar on 4 (msg, DST) pairs including an oversize DST. " +
 			"Oracle: exit status 0, no panic text, and every printed value equal to the oracle's RFC 9380 value. The program importing nothing else is the minimum of the configuration lattice (adding imports can only add registrations), so it is the decisive one. " +
 			"evaluations = library calls observed across programs; distinct non-trivial = distinct (program, input) results checked.",
 		Assume: []string{"`go build` links exactly what the import graph requires; adding imports can only add hash registrations"},
@@ -188,6 +199,7 @@ func c17Parent(p *mon.Prop, pc *mon.ParentCtx) *mon.Aggregate {
 		stdout   string
 		stderr   string
 		timed    bool
+		skipped  string
 	}
 
 	results := make([]result, len(variants))
@@ -240,7 +252,12 @@ func c17Parent(p *mon.Prop, pc *mon.ParentCtx) *mon.Aggregate {
 			run.Stdout, run.Stderr = &so, &se
 
 			if err := run.Start(); err != nil {
-				r.buildErr = "cannot start: " + err.Error()
+				if v.MayNotRun {
+					r.skipped = "cannot execute this architecture here: " + err.Error()
+				} else {
+					r.buildErr = "cannot start: " + err.Error()
+				}
+
 				results[i] = r
 
 				return
@@ -282,6 +299,11 @@ func c17Parent(p *mon.Prop, pc *mon.ParentCtx) *mon.Aggregate {
 		v := r.v
 
 		switch {
+		case r.skipped != "":
+			perVariant[v.Name] = "skipped: " + r.skipped
+			agg.Counters["programs-skipped-not-executable"]++
+
+			continue
 		case r.buildErr != "":
 			perVariant[v.Name] = "build failed"
 			agg.Incon("program %q did not build: %s", v.Name, r.buildErr)
